@@ -12,8 +12,8 @@ X, T, Uo = tp.spaces.R1("x"), tp.spaces.R1("t"), tp.spaces.R1("u")
 class Affine(tp.models.Model):
     def __init__(self, ins, coef):
         super().__init__(ins, Uo)
-        self.lin = torch.nn.Linear(2, 1).double()
         names = list(ins.keys())
+        self.lin = torch.nn.Linear(len(names), 1).double()
         w = [coef[0] if n == "x" else coef[1] for n in names]
         with torch.no_grad():
             self.lin.weight.copy_(torch.tensor([w], dtype=torch.float64))
@@ -27,11 +27,15 @@ class Affine(tp.models.Model):
 def mk_data_fn(fid):
     p, q, r = FT[fid - 1]
     if fid == 1:
-        def f(t, x):             # declared in another order than the spaces on purpose; values through the closure
+        def f(x, t=0.0):         # t has a DEFAULT: conditions that sample x only use it; values through the closure
+            return p * x + q * t + r
+        return f
+    if fid == 3:
+        def f(x, t=0.0, p=p, q=q, r=r):
             return p * x + q * t + r
         return f
 
-    def f(t, x, p=p, q=q, r=r):  # same def for several fids: values bound through DEFAULT arguments (the lambda x, k=k idiom)
+    def f(t, x, p=p, q=q, r=r):  # declared in another order than the spaces on purpose; values bound through DEFAULT arguments (the lambda x, k=k idiom)
         return p * x + q * t + r
     return f
 
@@ -95,7 +99,7 @@ def run_one(s):
     for di, dd in enumerate(s["dicts"]):
         d = {k: mk_data_fn(fid) for k, fid in dd.items()}
         inner = {}
-        if di == 1:          # the second dictionary holds functions the user already wrapped as UserFunction objects
+        if di >= 1:          # the second and third dictionary hold functions the user already wrapped as UserFunction objects
             inner = dict(d)
             d = {k: tp.utils.UserFunction(f) for k, f in d.items()}
         dicts.append(d)
@@ -113,7 +117,7 @@ def run_one(s):
             rows = op["rows"]
             log = []
             logs[cid] = log
-            ins = X * T if op["morder"] == "xt" else T * X
+            ins = X if op.get("xonly") else (X * T if op["morder"] == "xt" else T * X)
             if op.get("mid"):
                 model = models.setdefault(op["mid"], Affine(ins, op["model"]))      # one model object shared by conditions
             else:
@@ -138,7 +142,9 @@ def run_one(s):
                 if op.get("smp"):
                     cls = tp.conditions.PINNCondition if op["kind"] == "pinn" else tp.conditions.MeanCondition
                     return cls(model, shared[op["smp"]], res, data_functions=use, **kw)
-                if op["order"] == "xt":
+                if op.get("xonly"):          # points over x alone (the rows carry t = 0, the default of the data functions)
+                    pts = Points(torch.tensor([[float(r[0])] for r in rows], dtype=torch.float64), X)
+                elif op["order"] == "xt":
                     pts = Points(torch.tensor([[float(r[0]), float(r[1])] for r in rows], dtype=torch.float64), X * T)
                 else:
                     pts = Points(torch.tensor([[float(r[1]), float(r[0])] for r in rows], dtype=torch.float64), T * X)
